@@ -238,6 +238,84 @@ def run_shard(args) -> dict:
 
 
 # --------------------------------------------------------------------------
+# process fan-out: one forked child per shard, results over pipes.  The parent stays single-threaded (a
+# multiprocessing.Pool forks replacement workers from a parent that runs helper threads, which can deadlock the
+# child on an inherited lock), and a child that dies or hangs becomes a harness error instead of a hang.
+
+
+def _run_forked(tasks, nproc: int, shard_timeout: float, fn=None) -> list[dict]:
+    import pickle
+    import selectors
+    import signal
+
+    pending = list(tasks)
+    running: dict[int, dict] = {}
+    results: list[dict] = []
+    sel = selectors.DefaultSelector()
+
+    def fail(task, why):
+        results.append({"lane": task[1], "shard": task[4] if len(task) > 4 else 0, "task": task, "evaluations": 0, "nontrivial": [], "labels": {}, "grey": 0,
+                        "excluded_known": {}, "samples": [], "violation": None, "error": why, "exhaustive_done": False, "wall_s": 0})
+
+    while pending or running:
+        while pending and len(running) < nproc:
+            task = pending.pop(0)
+            r, w = os.pipe()
+            sys.stdout.flush()
+            sys.stderr.flush()
+            pid = os.fork()
+            if pid == 0:
+                code = 0
+                try:
+                    os.close(r)
+                    res = (fn or run_shard)(task)
+                    with os.fdopen(w, "wb") as f:
+                        pickle.dump(res, f, protocol=pickle.HIGHEST_PROTOCOL)
+                except BaseException:
+                    code = 1
+                finally:
+                    os._exit(code)
+            os.close(w)
+            os.set_blocking(r, False)
+            running[r] = {"pid": pid, "task": task, "buf": bytearray(), "t0": time.time()}
+            sel.register(r, selectors.EVENT_READ)
+        for key, _ in sel.select(timeout=1.0):
+            fd = key.fd
+            st = running[fd]
+            try:
+                chunk = os.read(fd, 1 << 20)
+            except BlockingIOError:
+                continue
+            if chunk:
+                st["buf"] += chunk
+                continue
+            sel.unregister(fd)
+            os.close(fd)
+            del running[fd]
+            try:
+                _, status = os.waitpid(st["pid"], 0)
+            except ChildProcessError:
+                status = 0
+            try:
+                results.append(pickle.loads(bytes(st["buf"])))
+            except Exception:
+                fail(st["task"], f"shard process ended without a result (wait status {status})")
+        now = time.time()
+        for fd, st in list(running.items()):
+            if now - st["t0"] > shard_timeout:
+                try:
+                    os.kill(st["pid"], signal.SIGKILL)
+                    os.waitpid(st["pid"], 0)
+                except OSError:
+                    pass
+                sel.unregister(fd)
+                os.close(fd)
+                del running[fd]
+                fail(st["task"], f"shard exceeded the {shard_timeout:.0f}s safety timeout (inconclusive)")
+    return results
+
+
+# --------------------------------------------------------------------------
 # known findings
 
 
@@ -248,6 +326,16 @@ def load_findings(pid: str) -> list[dict]:
     with open(p) as f:
         data = json.load(f)
     return [e for e in data.get("findings", []) if e.get("property") == pid]
+
+
+def _replay_task(task) -> dict:
+    _, reproducer, idx = task
+    try:
+        rec, v, lane = replay_file(os.path.join(VERIF_DIR, reproducer))
+        return {"idx": idx, "lane": rec["lane"], "violation": v.is_violation, "clause": v.clause, "detail": v.detail,
+                "bucket": lane.bucket(rec["case"], v) if v.is_violation else None, "error": None}
+    except BaseException as ex:
+        return {"idx": idx, "lane": "?", "violation": False, "error": repr(ex)}
 
 
 def replay_file(path: str) -> tuple[dict, Verdict, Lane]:
@@ -266,8 +354,6 @@ def replay_file(path: str) -> tuple[dict, Verdict, Lane]:
 
 
 def run_property(pid: str, tier: str, seed: int) -> int:
-    import multiprocessing as mp
-
     t0 = time.time()
     from . import scratch
 
@@ -281,24 +367,25 @@ def run_property(pid: str, tier: str, seed: int) -> int:
     known_lines: list[str] = []
     harness_errors: list[str] = []
 
-    # 1. replay pinned reproducers of known / fixed findings
-    for e in load_findings(pid):
-        path = os.path.join(VERIF_DIR, e["reproducer"])
-        try:
-            rec, v, lane = replay_file(path)
-        except Exception as ex:  # reproducer unusable = harness error
-            harness_errors.append(f"reproducer {e['reproducer']}: {ex!r}")
+    # 1. replay pinned reproducers of known / fixed findings (in forked children: the driver process itself never
+    #    runs lane code, so it stays single-threaded and safe to fork from)
+    entries = load_findings(pid)
+    rtasks = [("replay", e["reproducer"], i) for i, e in enumerate(entries)]
+    rres = _run_forked(rtasks, int(os.environ.get("VERIF_JOBS", "16")), 600.0, fn=_replay_task) if rtasks else []
+    by_idx = {r.get("idx"): r for r in rres if "idx" in r}
+    for i, e in enumerate(entries):
+        r = by_idx.get(i)
+        if r is None or r.get("error"):
+            harness_errors.append(f"reproducer {e['reproducer']}: {(r or {}).get('error', 'no result')}")
             continue
         if e["status"] == "known":
-            if v.is_violation and lane.bucket(rec["case"], v) == e["bucket"]:
+            if r["violation"] and r["bucket"] == e["bucket"]:
                 known_lines.append(f"KNOWN-FINDING: property={pid} {e['what']}")
                 suppress.add(e["bucket"])
         elif e["status"] == "fixed":
-            if v.is_violation:
-                violations.append(
-                    {"lane": rec["lane"], "replay": e["reproducer"], "clause": v.clause,
-                     "detail": v.detail, "bucket": lane.bucket(rec["case"], v)}
-                )
+            if r["violation"]:
+                violations.append({"lane": r["lane"], "replay": e["reproducer"], "clause": r["clause"],
+                                   "detail": r["detail"], "bucket": r["bucket"]})
     for ln in known_lines:
         print(ln, flush=True)
 
@@ -319,10 +406,7 @@ def run_property(pid: str, tier: str, seed: int) -> int:
         for tk in tasks:
             results.append(run_shard(tk))
     else:
-        ctx = mp.get_context("fork")
-        with ctx.Pool(min(nproc, len(tasks)), maxtasksperchild=1) as pool:
-            for r in pool.imap_unordered(run_shard, tasks):
-                results.append(r)
+        results = _run_forked(tasks, nproc, float(os.environ.get("VERIF_SHARD_TIMEOUT", "3000")))
 
     # 2b. coverage-guided lanes (atheris), thorough tier only; a lane that cannot run reports 'skipped'
     fuzz_stats: dict[str, dict] = {}
